@@ -340,7 +340,7 @@ func main() {
 	run.Set("tags", len(tags))
 	run.Set("tags_by_class", classCount)
 	run.Set("rule", "keys {1, r-1, two generated, aggregated a+b, r-a (thorough: 2, decoded), identity, identity as aggregate} x tags {every string of length <=2 over {B,_,\\x00}, empty, 300-byte tags, KMAC-block-aligned tags, every prefix and suffix of the PoP and SIG suite strings, every substring between token boundaries and every suite with a boundary-delimited piece cut out (thorough: every substring), tags crafted so that tag||SIGsuite overlaps the PoP suite}. "+
-		"Per key: BLSGeneratePOP(sk) == EncodeG1(sk*H_pop(pk)) with H_pop from a KMAC128 hasher built here from the PoP suite string; BLSVerifyPOP true under its own key object(s), under every other key and the identity keys exactly as the reference says (false); candidate-PoP family (valid, 384 bit flips, negation, +T of order 3/11/33/cofactor, +g1, doubled, identity encodings, lengths 0/1/47/49/96, uncompressed, x+p, x=p) judged by the reference canonical && in G1 && == sk*H_pop(pk). "+
+		"Per key with a private key: the slices returned by Encode() (public key, private key) and by BLSGeneratePOP are overwritten by the caller, after which BLSGeneratePOP, BLSVerifyPOP of the genuine PoP and Encode() must be unchanged. Per key: BLSGeneratePOP(sk) == EncodeG1(sk*H_pop(pk)) with H_pop from a KMAC128 hasher built here from the PoP suite string; BLSVerifyPOP true under its own key object(s), under every other key and the identity keys exactly as the reference says (false); candidate-PoP family (valid, 384 bit flips, negation, +T of order 3/11/33/cofactor, +g1, doubled, identity encodings, lengths 0/1/47/49/96, uncompressed, x+p, x=p) judged by the reference canonical && in G1 && == sk*H_pop(pk). "+
 		"Per (key, tag): Sign(pk.Encode(), NewExpandMsgXOFKMAC128(tag)) must equal sk*H_tag(pk) and must not be accepted by BLSVerifyPOP; the PoP must not verify as a signature of pk.Encode() nor of the other alphabet messages under the tag (reference: H_tag(m) != H_pop(pk)); the 128-byte outputs of the PoP hasher and of the tag hasher differ on a fixed input set. A case is distinct by (check, key, tag or candidate).")
 
 	// ---- per key: PoP generation, verification under every key, candidate family
@@ -363,6 +363,50 @@ func main() {
 				k.rep("BLSGeneratePOP", "", k.pkb, pop, ev.Hex(k.expPop), ev.Hex(pop), "H_pop = KMAC128(key=PoP suite, customizer H2C, 128 bytes) mapped to G1"))
 		}
 		k.pop = pop
+	}
+	// returned byte slices belong to the caller: overwriting what Encode() of the public key, of the
+	// private key and what BLSGeneratePOP returned must not change what the key objects do afterwards
+	for _, k0 := range keys[:nPriv] {
+		// on fresh objects of the same key, so that a defect found here does not disturb the other phases
+		fpriv, err := crypto.DecodePrivateKey(crypto.BLSBLS12381, k0.priv.Encode())
+		if err != nil {
+			run.Fatal("re-decoding private key %s: %v", k0.name, err)
+		}
+		fpk, err := crypto.DecodePublicKey(crypto.BLSBLS12381, k0.pkb)
+		if err != nil {
+			run.Fatal("re-decoding public key %s: %v", k0.name, err)
+		}
+		kk := *k0
+		kk.priv, kk.pk = fpriv, fpk
+		k := &kk
+		for _, b := range [][]byte{k.pk.Encode(), k.priv.Encode(), k.priv.PublicKey().Encode()} {
+			for i := range b {
+				b[i] ^= 0xA5
+			}
+		}
+		p1, err := crypto.BLSGeneratePOP(k.priv)
+		if err == nil {
+			for i := range p1 {
+				p1[i] ^= 0x5A
+			}
+		}
+		p2, err2 := crypto.BLSGeneratePOP(k.priv)
+		ok, err3 := crypto.BLSVerifyPOP(k.pk, k.expPop)
+		ok2, err4 := crypto.BLSVerifyPOP(k.priv.PublicKey(), k.expPop)
+		run.Add("evaluations", 4)
+		if err != nil || err2 != nil || !bytes.Equal(p2, k.expPop) {
+			run.Violation("BLSGeneratePOP:changes-after-caller-overwrote-returned-bytes", fmt.Sprintf("key %s: after the caller overwrote the slices returned by Encode() and by a first BLSGeneratePOP, BLSGeneratePOP returns %x (%v), reference %x", k.name, p2, err2, k.expPop),
+				k.rep("BLSGeneratePOP", "", k.pkb, p2, ev.Hex(k.expPop), ev.Hex(p2), "returned slices overwritten before the call"))
+		}
+		if err3 != nil || err4 != nil || !ok || !ok2 {
+			run.Violation("BLSVerifyPOP:rejects-valid-after-caller-overwrote-returned-bytes", fmt.Sprintf("key %s: after the caller overwrote the slices returned by Encode(), the genuine PoP is rejected (%v,%v / %v,%v)", k.name, ok, err3, ok2, err4),
+				k.rep("BLSVerifyPOP", "", k.pkb, k.expPop, "true", fmt.Sprint(ok, ok2), "returned slices overwritten before the call"))
+		}
+		if !bytes.Equal(k.pk.Encode(), k.pkb) {
+			run.Violation("Encode:aliases-internal-state", fmt.Sprintf("key %s: Encode() after the caller overwrote an earlier result differs", k.name),
+				k.rep("Encode", "", k.pkb, k.pk.Encode(), ev.Hex(k.pkb), ev.Hex(k.pk.Encode()), ""))
+		}
+		run.Distinct("alias/" + k.name)
 	}
 	hist := map[string]int64{}
 	var mu sync.Mutex
